@@ -29,27 +29,30 @@ def table_sum_events(env, rng, thorough):
         scale_only.sort()
         us = [u for _s, u in scale_only]
         pairs = [(us[k], us[k + 1]) for k in range(len(us) - 1)] + [(us[k + 1], us[k]) for k in range(len(us) - 1)]
+        light = set()
         if not thorough and len(pairs) > 8:
-            # neighbours that are nearly the same size are kept, the rest is sampled
-            near = [(a, b) for a, b in pairs if abs(db.Convert(qt, a, b, 1.0) - 1.0) < 1e-3]
-            pairs = near[:8] + rng.sample(pairs, 4)
+            # neighbours that are nearly the same size (but not the same size) are kept with every operand kind, four sampled pairs as well;
+            # every other neighbour pair is kept too - every unit is the left operand of a sum at least once - with Scalars at exponent 1 only
+            near = [(a, b) for a, b in pairs if 0.0 < abs(db.Convert(qt, a, b, 1.0) - 1.0) < 1e-3]
+            full = set(near[:16] + rng.sample(pairs, 4))
+            light = set(pairs) - full
         pairs += [tuple(rng.sample(us, 2)) for _ in range(8 if thorough else 2)] if len(us) > 2 else []
         for u, v in pairs:
             r = db.Convert(qt, v, u, 1.0)
             x, y = 1.0e6, 1.0e6
-            for e in (1, 2):
+            for e in ((1,) if (u, v) in light else (1, 2)):
                 def mk(val, unit, cls):
                     a = Scalar(cat, val, unit) if cls == "Scalar" else Array(cat, numpy.array([val, 2 * val]) if cls == "ndarray" else [val, 2 * val], unit)
                     if e == 2:
                         a = a * (Scalar(cat, 1.0, unit) if cls == "Scalar" else Array(cat, [1.0, 1.0], unit))
                     return a
-                for cls in ("Scalar", "list", "ndarray"):
+                for cls in (("Scalar",) if (u, v) in light else ("Scalar", "list", "ndarray")):
                     for opn, sgn in (("+", 1.0), ("-", -1.0)):
                         a, b = mk(x, u, cls), mk(y, v, cls)
                         o = P.outcome((lambda: a + b) if sgn > 0 else (lambda: a - b))
                         want = x + sgn * y * r ** e
                         ev = {"op": "SumAgrees", "call": "%s %s %s, exponent %d" % (cls, opn, cls, e), "qtype": qt, "u": u, "v": v, "ok": o[0] == "ok",
-                              "ppt": 2 ** 31 - 1, "units_kept": False, "left_kept": False, "want": want}
+                              "ppt": 2 ** 31 - 1, "comm_ppt": 0, "units_kept": False, "left_kept": False, "want": want}
                         if o[0] == "ok":
                             got = o[1].GetAbstractValue()
                             got = [float(g) for g in got] if cls != "Scalar" else [float(got)]
@@ -58,6 +61,16 @@ def table_sum_events(env, rng, thorough):
                             ev["ppt"] = max(min(2 ** 31 - 1, int(abs(g - w) / (scale * (k + 1)) * 1e12)) for k, (g, w) in enumerate(zip(got, wants)))
                             ev["got"] = got
                             ev["units_kept"] = o[1].GetQuantity() == a.GetQuantity()
+                            # the same two operands in the other order denote the same amount (minus it for a difference): both results
+                            # read in the base unit with each unit's own to-base direction only
+                            o2 = P.outcome((lambda: b + a) if sgn > 0 else (lambda: b - a))
+                            ev["comm_ppt"] = 2 ** 31 - 1
+                            if o2[0] == "ok":
+                                tb_u, tb_v = db.Convert(qt, u, infos[0].unit, 1.0) ** e, db.Convert(qt, v, infos[0].unit, 1.0) ** e
+                                got2 = o2[1].GetAbstractValue()
+                                got2 = [float(g) for g in got2] if cls != "Scalar" else [float(got2)]
+                                sc_b = (abs(x) * tb_u + abs(y) * tb_v)
+                                ev["comm_ppt"] = max(min(2 ** 31 - 1, int(abs(g * tb_u - sgn * h * tb_v) / (sc_b * (k + 1)) * 1e12)) for k, (g, h) in enumerate(zip(got, got2)))
                             left = a.GetAbstractValue()
                             ev["left_kept"] = ([float(z) for z in left] if cls != "Scalar" else [float(left)]) == ([x, 2 * x] if cls != "Scalar" else [x])
                         else:
@@ -72,7 +85,7 @@ def table_sum_events(env, rng, thorough):
                 want = [x + y if opn == "+" else x - y for x, y in zip(a_, b_)]
                 got = list(o[1].GetAbstractValue()) if o[0] == "ok" else None
                 events.append({"op": "SumAgrees", "call": "%s Array of python integers %r %s %r" % (kind.__name__, a_, opn, b_), "qtype": "length", "u": "mm", "v": "mm",
-                               "ok": o[0] == "ok", "ppt": 0 if got == want else 2 ** 31 - 1, "units_kept": o[0] == "ok" and o[1].GetUnit() == "mm", "left_kept": list(A.GetAbstractValue()) == a_,
+                               "ok": o[0] == "ok", "ppt": 0 if got == want else 2 ** 31 - 1, "comm_ppt": 0, "units_kept": o[0] == "ok" and o[1].GetUnit() == "mm", "left_kept": list(A.GetAbstractValue()) == a_,
                                "want": repr(want), "got": repr(got)})
     return events
 
